@@ -57,6 +57,8 @@ GROUPS = ['newton', 'bfgs', 'broyden', 'ncg', 'sd', 'adam', 'ls']
 # quirks of the tree as pinned that layer C mirrors (SMOOTH_QUIRKS of MC_SmoothImpl); remove a name once the
 # corresponding proposal has been applied to /repo
 PINNED_QUIRKS = ['adam-bias', 'ncg-first', 'bt-alpha', 'store0']
+if os.environ.get('VERIF_SMOOTH_QUIRKS') is not None:          # e.g. "" when every proposal is applied to the tree under test
+    PINNED_QUIRKS = [q_ for q_ in os.environ['VERIF_SMOOTH_QUIRKS'].split('+') if q_]
 
 
 # =====================================================================================================================
@@ -853,7 +855,7 @@ def build_space(w, conc, dtype='float64'):
     if conc == 'rn-wconst':
         return odl.rn(n, weighting=wf[0], dtype=dtype)
     if conc == 'rn-warray':
-        return odl.rn(n, weighting=np.array(wf), dtype=dtype)
+        return odl.rn(n, weighting=np.array(wf, dtype=dtype), dtype=dtype)
     if conc == 'discr':                       # cell volume wf[0]
         return odl.uniform_discr(0, wf[0] * n, n, dtype=dtype)
     if conc == 'discr-2d':                    # n = 2 m cells in a 2 x m grid (odd n: 1 x n), cell volume wf[0]
@@ -868,7 +870,7 @@ def build_space(w, conc, dtype='float64'):
         if cls == 'const':
             return odl.ProductSpace(odl.rn(1, dtype=dtype), odl.rn(n - 1, dtype=dtype), weighting=wf[0])
         return odl.ProductSpace(odl.rn(1, weighting=wf[0], dtype=dtype),
-                                odl.rn(n - 1, weighting=np.array(wf[1:]), dtype=dtype))
+                                odl.rn(n - 1, weighting=np.array(wf[1:], dtype=dtype), dtype=dtype))
     if conc == 'power':                       # n copies of R with one weight each
         return odl.ProductSpace(odl.rn(1, dtype=dtype), n, weighting=wf)
     raise ValueError(conc)
@@ -1419,9 +1421,19 @@ def compare_run(I, obs, exp_segs, conv, x0):
         if len(ops) < len(E):
             x_cur = list(E[-1]['xn'])
         if not match_vec(so['x'], x_cur):
-            bad.append(('final', 'first' if len(E) <= 1 else 'later', pre + 'x = %s, expected %s' % (so['x'], x_cur)))
+            quiet = not rec and not obs['has_cb']
+            bad.append(('final', 'first' if len(E) <= 1 and not quiet else 'later',
+                        pre + 'x = %s, expected %s' % (so['x'], x_cur)))
             return bad
     return bad
+
+
+POSITIONAL = ('iterate', 'final', 'callback-missing', 'early-stop')
+
+
+def clause_name(clause, pos):
+    """the clause names of Trace_Smooth: the first iteration of a call is told apart where a finding depends on it"""
+    return clause + '-first' if (pos == 'first' and clause in POSITIONAL) else clause
 
 
 # =====================================================================================================================
@@ -1457,6 +1469,8 @@ def concretisations(I, key, quick, seed):
     concs = list(CONCS[cls])
     if len(I['x0']) % 2 and 'discr-2d' in concs and rnd.random() < 0.7:
         concs.remove('discr-2d')
+    if s == 'adam' and 'pspace' in concs:
+        concs.remove('pspace')       # adam needs element-wise powers / roots, which a heterogeneous product space lacks
     k = I['ls']['k']
     rules = {'const': ['user', 'float', 'npfloat', 'object'] + (['default', 'int'] if I['ls']['a'] == 1 else []),
              'iternum': ['object'], 'exact': ['user'], 'bt': ['kw', 'pos', 'np']}[k]
@@ -1486,11 +1500,20 @@ def concretisations(I, key, quick, seed):
     return out
 
 
-def sig_of(I, clause, pos, recorded=True):
-    s = dict(stage=STAGE, solver=I['solver'], clause=clause, opt=opt_class(I), rule=rule_class(I, recorded))
-    if pos:
-        s['pos'] = pos
-    return s
+def adam_eps(I, points, D, want_default):
+    """eps of an ADAM run: the documented default 1e-8 where it stays below the comparison tolerance on the lattice
+    (1/D) Z (it perturbs a step by about lr eps / |g_i|), else a smaller positive value - layer A takes eps -> 0"""
+    if not want_default:
+        return 1e-14
+    P = Prob(I['P'], Fraction)
+    gmin = min([abs(g) for x in points for g in P.grad([Fraction(frac(v)) for v in x])] or [Fraction(1)])
+    if gmin == 0:
+        return 1e-14
+    return 1e-8 if float(I['lr']) * 1e-8 / float(gmin) <= 2.0 ** -24 / D else 1e-14
+
+
+def sig_of(I, clause, recorded=True):
+    return dict(stage=STAGE, solver=I['solver'], clause=clause, opt=opt_class(I), rule=rule_class(I, recorded))
 
 
 def replay_solver_case(args):
@@ -1505,24 +1528,24 @@ def replay_solver_case(args):
     segs, exp = expected_segments(case)
     key = json.dumps([case['inst'], case['split']], sort_keys=True)
     nontrivial = len(case['log']) >= 1
-    for cz in concretisations(I, key, quick, seed):
-        try:
-            obs = run_real(I, cz, segs)
-        except MachineryError:
-            raise
+    for ci, cz in enumerate(concretisations(I, key, quick, seed)):
+        if I['solver'] == 'adam':
+            Dm = max([1] + [v.denominator for e in exp for en in e for v in en['xn']])
+            cz['eps'] = adam_eps(I, [en['x'] for e in exp for en in e], min(Dm, MAXDEN), ci % 2 == 0)
+        obs = run_real(I, cz, segs)
         bad = compare_run(I, obs, exp, case['conv'], I['x0'])
         out['counts'].append(([I['solver'], I['fam'], opt_class(I), rule_class(I), cz['conc'], key], nontrivial))
         for clause, pos, info in bad:
-            out['viol'].append((sig_of(I, clause, pos, obs['recorded']),
+            clause = clause_name(clause, pos)
+            out['viol'].append((sig_of(I, clause, obs['recorded']),
                                 dict(stage_module=STAGE, kind='solver', inst=case['inst'], split=case['split'],
                                      cz=cz, segs=segs, clause=clause, info=info)))
         # layer C observables (drift only): the rule object's counters
         if not bad and obs['attrs'] and 'total' in obs['attrs']:
             lo = case['lo']
             if obs['attrs']['total'] != lo['total'] or not match_q(obs['attrs']['alpha'], fr(lo['alpha'])):
-                out['drift'].append('%s: BacktrackingLineSearch counters after the run (total_num_iter=%s, alpha=%s) '
-                                    'differ from layer C (%s, %s)' % (REALNAME[I['solver']], obs['attrs']['total'],
-                                                                     obs['attrs']['alpha'], lo['total'], fr(lo['alpha'])))
+                out['drift'].append('%s + BacktrackingLineSearch(%s): total_num_iter / alpha after the run differ from the '
+                                    'number of step reductions / last step of the reference' % (REALNAME[I['solver']], rule_class(I)))
         if out['sample'] is None and not bad and nontrivial:
             out['sample'] = dict(solver=REALNAME[I['solver']], problem=I['P']['tag'], options=opt_class(I),
                                  rule=rule_class(I), space=cz['conc'], calls=segs,
@@ -1635,17 +1658,750 @@ def replay_ls_case(args):
             if r['touched']:
                 bad.append(('arguments-modified', pos, 'call %d' % (ci + 1)))
         for clause, pos, info in bad:
-            out['viol'].append((dict(stage=STAGE, solver='linesearch', clause=clause, opt=cls, rule=I['ls']['k'], pos=pos),
+            if clause == 'step' and pos == 'first-call':
+                clause = 'step-first-call'
+            out['viol'].append((dict(stage=STAGE, solver='linesearch', clause=clause, opt=cls, rule=I['ls']['k']),
                                 dict(stage_module=STAGE, kind='ls', inst=case['inst'], hist=qidx, cz=cz, clause=clause,
                                      info=info)))
         if not bad and not edge and attrs and all(r['raised'] is None for r in res):
             lo = case['lo']
             if 'total' in attrs and (attrs['total'] != lo['total'] or not match_q(attrs['alpha'], fr(lo['alpha']))):
-                out['drift'].append('BacktrackingLineSearch: counters after a history (total_num_iter=%s, alpha=%s) differ '
-                                    'from layer C (%s, %s)' % (attrs['total'], attrs['alpha'], lo['total'], fr(lo['alpha'])))
+                out['drift'].append('BacktrackingLineSearch(%s): total_num_iter / alpha after a history differ from the number '
+                                    'of step reductions / last step of the reference' % cls)
             if 'calls' in attrs and attrs['calls'] != lo['calls']:
-                out['drift'].append('LineSearchFromIterNum.iter_count = %s after %s calls' % (attrs['calls'], lo['calls']))
+                out['drift'].append('LineSearchFromIterNum.iter_count differs from the number of calls')
         if out['sample'] is None and not bad and len(hist) == 3 and I['ls']['k'] == 'bt':
             out['sample'] = dict(rule='BacktrackingLineSearch', options=cls, problem=I['P']['tag'], queries=qidx,
                                  steps=[str(fr(hh['a'])) if hh['status'] in ('ok', 'edge') else hh['status'] for hh in hist])
     return out
+
+
+# =====================================================================================================================
+# code -> spec: drivers beyond the TLC constants, NDJSON lines for Trace_Smooth
+# =====================================================================================================================
+MAXLAT = 2 ** 14            # largest common lattice denominator of a driver instance
+OFFQ = [0, 0]
+
+
+def snapq(v, D):
+    """observed float -> [n, d] on the lattice (1/D) Z, or the off-lattice token"""
+    s = exact.snap(float(v), D) if math.isfinite(float(v)) else exact.OFF
+    if s == exact.OFF or isinstance(s, float):
+        return OFFQ
+    try:
+        return exact.to_q(s)
+    except OverflowError:
+        return OFFQ
+
+
+def snapv(arr, D):
+    return [snapq(v, D) for v in np.asarray(arr, dtype=float).ravel()]
+
+
+def lattice_of(runs, starts=()):
+    """common denominator of everything the mirror runs touch (selection of the snapping lattice)"""
+    D = 1
+    for x in starts:
+        for v in (x or ()):
+            D = D * Fraction(v).denominator // gcd(D, Fraction(v).denominator)
+    for r in runs:
+        for e in r['log']:
+            for key in ('x', 'd', 'xn'):
+                for v in e[key]:
+                    D = D * frac(v).denominator // gcd(D, frac(v).denominator)
+            for key in ('dd', 'a'):
+                dv = frac(e[key]).denominator
+                D = D * dv // gcd(D, dv)
+            if D > MAXLAT:
+                return None
+    return D
+
+
+def mirror_calls(I, segs, restart_x, schedule=None):
+    """mirror of consecutive calls (fresh solver state per call, ONE rule object); schedule: per call the iteration
+    numbers at which nonlinear CG restarts.  Returns the list of runs or None if not usable."""
+    runs = []
+    rule = None
+    x = [Fraction(v) for v in I['x0']]
+    try:
+        for si, m in enumerate(segs):
+            if si > 0 and restart_x and restart_x[si] is not None:
+                x = [Fraction(v) for v in restart_x[si]]
+            r = mirror_run(dict(I, N=m), num=Q32, x_start=x, rule=rule, restarts=(schedule[si] if schedule else ()))
+            if not r['ok'] or r['tie']:
+                return None
+            if I['solver'] == 'adam' and r['conv']:
+                return None                                  # ADAM's normalised step is discontinuous at a stationary point
+            if r['small'] is not None and r['small'] < 2.0 ** -10:
+                return None                                  # a quantity a tolerance test may look at is too small
+            if r['rule'].margin is not None and r['rule'].margin < 1e-9:
+                return None                                  # a backtracking trial is too close to a tie
+            rule = r['rule']
+            x = [frac(v) for v in r['x']]
+            runs.append(r)
+    except (OverflowError, ZeroDivisionError, IndexError):
+        return None
+    return runs
+
+
+DRV_MATS = {1: [[[1]], [[2]], [[3]], [[5]]],
+            2: [[[3, 1], [1, 2]], [[2, -1], [-1, 2]], [[6, 2], [2, 1]], [[1, 0], [0, 4]], [[9, 0], [0, 1]], [[2, 1], [1, 1]],
+                [[4, -2], [-2, 2]]],
+            3: [[[3, 1, 0], [1, 2, 0], [0, 0, 1]], [[1, 0, 0], [0, 2, 0], [0, 0, 3]], [[2, 0, 1], [0, 1, 0], [1, 0, 1]],
+                [[2, -1, 0], [-1, 2, -1], [0, -1, 2]], [[4, 0, 0], [0, 1, 0], [0, 0, 1]]],
+            4: [[[1, 0, 0, 0], [0, 2, 0, 0], [0, 0, 2, 0], [0, 0, 0, 4]], [[2, 1, 0, 0], [1, 2, 0, 0], [0, 0, 2, 1], [0, 0, 1, 2]],
+                [[2, 0, 0, 0], [0, 2, 0, 0], [0, 0, 1, 0], [0, 0, 0, 1]], [[2, -1, 0, 0], [-1, 2, -1, 0], [0, -1, 2, -1], [0, 0, -1, 2]]]}
+DYAD = [F(1, 4), F(1, 2), F(1), F(2), F(4)]
+
+
+def drv_problem(rnd, kind='quad', n=None):
+    n = n or rnd.choice([1, 2, 2, 3, 3, 4])
+    wc = rnd.choice(['one', 'const', 'array'])
+    w = [F(1)] * n if wc == 'one' else [rnd.choice([F(1, 2), F(2), F(4), F(1, 4)])] * n if wc == 'const' \
+        else [rnd.choice(DYAD) for _ in range(n)]
+    if wc == 'array' and len(set(w)) == 1:
+        w[0] = w[0] * 2
+    sc = rnd.choice([1, 1, 2, F(1, 2)])
+    vec = lambda: [sc * rnd.randint(-3, 3) for _ in range(n)]
+    if kind == 'quad':
+        M = rnd.choice(DRV_MATS[n])
+        sol = vec()
+        P = quadP(M, w, sol, tag='drv%dx%d/%s' % (n, n, wc))
+        if all(M[i][j] == 0 for i in range(n) for j in range(n) if i != j) and rnd.random() < 0.6:
+            # diagonal: also expressible with ODL's own classes, 1/2 || d . x - t ||^2 : M = diag(w d^2), c = w d t
+            dg = [rnd.choice([1, 2, 3]) for _ in range(n)]
+            tr = [rnd.randint(-3, 3) for _ in range(n)]
+            P = dict(P, M=[[w[i] * dg[i] ** 2 if i == j else 0 for j in range(n)] for i in range(n)],
+                     c=[w[i] * dg[i] * tr[i] for i in range(n)], sol=[F(tr[i], dg[i]) for i in range(n)], dg=dg, tr=tr)
+        return P
+    if kind == 'quart':
+        return otherP('quart', w, vec(), tag='drvquart%d/%s' % (n, wc))
+    c = [rnd.choice([-4, -3, -2, -1, 1, 2, 3, 6]) for _ in range(n)]
+    return otherP('lin', w, c, tag='drvlin%d/%s' % (n, wc))
+
+
+def drv_rule(rnd, solver, kind):
+    r = rnd.random()
+    if kind != 'quad' or r < 0.35:
+        if rnd.random() < 0.3:
+            return lsiter([rnd.choice([F(1, 2), F(1, 4), F(1, 8), F(3, 8), F(1, 16)]) for _ in range(12)])
+        return lsconst(rnd.choice([F(1), F(1, 2), F(1, 4), F(3, 4), F(1, 8), F(3, 8)]))
+    if r < 0.7:
+        return LSEX
+    return lsbt(rnd.choice([F(1, 2), F(1, 4), F(1, 8)]), rnd.choice([F(1, 100), F(1, 10), F(1, 4), F(1, 2), F(3, 4)]),
+                rnd.choice([1, 1, 2, 4, F(1, 2)]), rnd.random() < 0.5, rnd.choice([30, 30, 6, 3]))
+
+
+def drv_instance(rnd, solver):
+    kind = 'quad'
+    if solver == 'newton' and rnd.random() < 0.25:
+        kind = 'quart'
+    if solver == 'adam' and rnd.random() < 0.4:
+        kind = 'lin'
+    if solver == 'sd' and rnd.random() < 0.15:
+        kind = 'quart'
+    P = drv_problem(rnd, kind)
+    n = len(P['w'])
+    sc = rnd.choice([1, 1, 2, F(1, 2)])
+    x0 = [sc * rnd.randint(-3, 3) for _ in range(n)]
+    if kind == 'quart':
+        x0 = [v if v != t else v + 1 for v, t in zip(x0, P['t'])]      # the Hessian is singular where x_i = t_i
+    elif rnd.random() < 0.06 and P['sol']:
+        x0 = list(P['sol'])                                       # started at the minimiser
+    I = base_inst(solver, P, x0, fam='driver', N=rnd.choice([1, 2, 3, 3, 4, 5]))
+    if solver != 'adam':
+        I['ls'] = drv_rule(rnd, solver, kind)
+    if solver == 'newton':
+        I['cgit'] = rnd.choice([0, 0, 1, 2]) if kind == 'quad' else 0
+    elif solver == 'bfgs':
+        I['store'] = rnd.choice([-1, -1, 0, 1, 2, 3, 5])
+        I['h0'] = rnd.choice([None, None, [rnd.choice([F(1, 2), F(2), F(1, 4)])] * n, [rnd.choice(DYAD) for _ in range(n)]])
+    elif solver == 'broyden':
+        I['impl'] = rnd.choice(['first', 'second'])
+        I['h0'] = rnd.choice([None, None, [rnd.choice([F(1, 2), F(1, 4)])] * n, [rnd.choice([F(1, 4), F(1, 2), F(1)]) for _ in range(n)]])
+    elif solver == 'ncg':
+        I['beta'] = rnd.choice(['FR', 'PR', 'HS', 'DY'])
+    elif solver == 'sd':
+        I['box'] = rnd.choice([None, None, [0, 2], [-1, 1], [1, 3]])
+    elif solver == 'adam':
+        I['lr'] = rnd.choice([F(1, 4), F(1, 2), F(1, 8), F(1)])
+        if kind == 'lin':
+            I['b1'], I['b2'] = rnd.choice([F(0), F(1, 2), F(1, 4), F(9, 10)]), rnd.choice([F(0), F(1, 2), F(3, 4), F(9, 10)])
+        else:
+            I['b1'], I['b2'] = rnd.choice([F(0), F(0), F(1, 2), F(1, 4), F(9, 10)]), F(0)
+    return I
+
+
+def drv_calls(rnd, I):
+    """how the N iterations are spread over consecutive calls; a later call may start from other values (the caller
+    re-uses x, the functional and the rule object for another start)"""
+    N = I['N']
+    r = rnd.random()
+    if r < 0.55 or N < 2:
+        segs = [N]
+    elif r < 0.85:
+        s = rnd.randint(1, N - 1)
+        segs = [s, N - s]
+    elif r < 0.93:
+        segs = [0, N]                                              # maxiter = 0 performs nothing
+    else:
+        segs = [1] * N
+    restart = [None] * len(segs)
+    if len(segs) > 1 and rnd.random() < 0.3:
+        k = rnd.randint(1, len(segs) - 1)
+        restart[k] = [Fraction(rnd.randint(-2, 2)) for _ in I['x0']]
+        if I['P']['kind'] == 'quart':
+            restart[k] = [v if v != t else v + 1 for v, t in zip(restart[k], I['P']['t'])]
+    return segs, restart
+
+
+def ncg_schedules(segs, nreset):
+    """restart positions of the two readings of `nreset` the harness has to be able to snap: the code as pinned
+    (first step of a cycle not counted) and cycles of maxiter // (nreset + 1) iterations"""
+    a, b = [], []
+    for m in segs:
+        per = m // (nreset + 1)
+        a.append(tuple((1 + per) * c for c in range(1, nreset + 1)))
+        b.append(tuple(per * c for c in range(1, nreset + 1)) if per > 0 else ())
+    return a, b
+
+
+def drv_cz(rnd, I, seed):
+    cls = weight_class(I['P']['w'])
+    concs = list(CONCS[cls])
+    if I['solver'] == 'adam':
+        concs.remove('pspace')
+    k = I['ls']['k']
+    rules = {'const': ['user', 'float', 'npfloat', 'object'] + (['default', 'int'] if I['ls']['a'] == 1 else []),
+             'iternum': ['object'], 'exact': ['user'], 'bt': ['kw', 'pos', 'np']}[k]
+    cz = dict(conc=rnd.choice(concs), rule=rnd.choice(rules), seed=seed, cb=rnd.choice(['func', 'apply', 'and', 'func', 'none']),
+              tol=rnd.choice(['explicit', 'default', 'np']), args=rnd.choice(['kw', 'kw', 'pos']),
+              maxiter=rnd.choice(['int', 'np']), h0=rnd.choice(['scaling', 'multiply', 'user']),
+              impl=rnd.choice(['lower', 'upper', 'title']), npopts=rnd.random() < 0.5, hinv=rnd.random() < 0.5,
+              cg=rnd.choice(['default', 'n']), form='user', rec=True)
+    if I['solver'] == 'newton' and (I['cgit'] > 0 or cz['conc'] in ('pspace', 'power')):
+        cz['hinv'] = cz['hinv'] and I['cgit'] == 0
+        cz['cg'] = 'n'
+    if k == 'const' and cz['rule'] != 'user':
+        cz['rec'] = rnd.random() < 0.5
+    if cz['rule'] in ('float', 'npfloat', 'default', 'int'):
+        cz['rec'] = False
+    if 'dg' in I['P'] and rnd.random() < 0.7 and (I['solver'] != 'newton' or I['cgit'] == 0):
+        cz['form'] = 'odl-l2diag'
+        cz['hinv'] = False
+    elif odl_form_ok(I, cz['conc']) and rnd.random() < 0.3:
+        cz['form'] = 'odl'
+        cz['hinv'] = False
+    return cz
+
+
+def run_lines(I, cz, segs, restart, nreset, obs, D, tid):
+    """NDJSON lines of one recorded run"""
+    lines = [dict(op='begin', tid=tid, inst=inst_to_json(I), nreset=nreset, recorded=obs['recorded'], hascb=obs['has_cb'])]
+    nocall = dict(has=False, raised=False, x=[], d=[], dd=[0, 1], a=[0, 1])
+    for si, so in enumerate(obs['segs']):
+        st = restart[si] if restart and restart[si] is not None else []
+        lines.append(dict(op='call', tid=tid, maxiter=int(so['maxiter']), nops=len(so['ops']),
+                          start=[exact.to_q(Fraction(v)) for v in st]))
+        for op in so['ops']:
+            c = op['call']
+            if c is None:
+                call = nocall
+            elif c[0] == 'ls-raise':
+                call = dict(nocall, has=True, raised=True)
+            else:
+                call = dict(has=True, raised=False, x=snapv(c[1], D), d=snapv(c[2], D), dd=snapq(c[3], D), a=snapq(c[4], D))
+            lines.append(dict(op='iter', tid=tid, call=call, cbs=[snapv(cb, D) for cb in op['cbs']],
+                              orphan=bool(op.get('orphan', False))))
+        lines.append(dict(op='ret', tid=tid, x=snapv(so['x'], D), raised=so['raised'] or '', ret=so['ret'] or '',
+                          same=bool(so['same'])))
+    return lines
+
+
+def driver_run_case(args):
+    """one seeded driver instance: real run -> NDJSON lines (or None if the draw is not usable)"""
+    solver, seed = args
+    rnd = random.Random(seed)
+    for _ in range(40):
+        I = drv_instance(rnd, solver)
+        segs, restart = drv_calls(rnd, I)
+        nreset = rnd.choice([0, 0, 1, 2]) if solver == 'ncg' and I['ls']['k'] in ('exact', 'const') else 0
+        if nreset:
+            restart = [None] * len(segs)
+            scheds = ncg_schedules(segs, nreset)
+            runsets = [mirror_calls(I, [m + nreset + 1 for m in segs], restart, scheds[0]), mirror_calls(I, segs, restart, scheds[1])]
+        else:
+            runsets = [mirror_calls(I, segs, restart)]
+        if any(r is None for r in runsets):
+            continue
+        D = lattice_of([r for rs in runsets for r in rs], [I['x0']] + list(restart))
+        if D is None:
+            continue
+        cz = drv_cz(rnd, I, seed)
+        if nreset:
+            # where the resets happen is not documented: only a recorded rule shows which reading the run follows
+            cz.update(rule='user', rec=True)
+            if cz['cb'] == 'none':
+                cz['cb'] = 'func'
+        if solver == 'adam':
+            cz['eps'] = adam_eps(I, [e['x'] for r in runsets[0] for e in r['log']], D, rnd.random() < 0.6)
+        obs = run_real(I, cz, segs, nreset=nreset, restart_x=restart)
+        lines = run_lines(I, cz, segs, restart, nreset, obs, D, 0)
+        meta = dict(kind='run', inst=inst_to_json(I), cz=cz, segs=segs, nreset=nreset,
+                    restart=[None if r is None else [str(v) for v in r] for r in restart],
+                    recorded=obs['recorded'], lattice=D)
+        nontrivial = any(len(so['ops']) > 0 for so in obs['segs']) or any(len(r['log']) for r in runsets[-1])
+        return dict(lines=lines, meta=meta, key=[solver, opt_class(I), rule_class(I, obs['recorded']), cz['conc'], len(segs), nreset],
+                    nontrivial=nontrivial)
+    return None
+
+
+# ---------------------------------------------------------------- step-length object histories
+def step_q(a, ls, D):
+    """observed step -> [n, d]: backtracking steps are dyadic (the float IS the rational), the others lie on (1/D) Z"""
+    if a is None or not math.isfinite(a):
+        return OFFQ
+    if ls['k'] != 'bt':
+        return snapq(a, D)
+    frc = Fraction(a)
+    return exact.to_q(frc) if frc.denominator < 2 ** 30 and abs(frc.numerator) < 2 ** 30 else OFFQ
+
+
+def drv_ls_case(seed):
+    rnd = random.Random(seed)
+    for _ in range(40):
+        kind = rnd.choice(['quad', 'quad', 'quart'])
+        P = drv_problem(rnd, kind)
+        n = len(P['w'])
+        pts = [[Fraction(rnd.randint(-3, 3)) for _ in range(n)] for _ in range(3)]
+        Pm = Prob(P, Fraction)
+        queries = []
+        for x in pts:
+            g = Pm.grad(x)
+            if all(v == 0 for v in g):
+                continue
+            queries += [dict(x=x, d=vneg(g)), dict(x=x, d=scal(rnd.choice([-2, -4, -8]), g)), dict(x=x, d=list(g)),
+                        dict(x=x, d=[Fraction(1 if i == rnd.randrange(n) else 0) for i in range(n)])]
+        if len(queries) < 4:
+            continue
+        r = rnd.random()
+        if r < 0.8:
+            ls = lsbt(rnd.choice([F(1, 2), F(1, 4), F(1, 8)]), rnd.choice([F(1, 100), F(1, 10), F(1, 4), F(1, 2), F(3, 4), F(9, 10)]),
+                      rnd.choice([1, 1, 2, 4, F(1, 2), F(1, 4)]), rnd.random() < 0.5, rnd.choice([0, 1, 2, 3, 4, 30, 30]))
+        elif r < 0.9:
+            ls = lsconst(rnd.choice([F(3, 4), F(1, 8), F(5)]))
+        else:
+            ls = lsiter([F(1, k + 1) if k % 2 else F(k + 1) for k in range(8)])
+        hist = [rnd.randrange(len(queries)) + 1 for _ in range(rnd.choice([3, 4, 5, 6]))]
+        I = base_inst('ls', P, pts[0], fam='driver', N=len(hist), ls=ls, queries=queries)
+        # selection: no exact tie / near tie, steps inside 32 bits
+        rule = MirrorRule(ls, Q32)
+        Pq = Prob(P, Q32)
+        ok = True
+        try:
+            for qi in hist:
+                qq = queries[qi - 1]
+                x, d = [Q32(v) for v in qq['x']], [Q32(v) for v in qq['d']]
+                dd = Pq.inner(Pq.grad(x), d)
+                if ls['k'] == 'bt':
+                    st, a, j, tie = rule.bt(Pq, x, d, dd)
+                    if tie or (rule.margin is not None and rule.margin < 1e-9):
+                        ok = False
+                        break
+                    if st in ('ok', 'edge'):
+                        rule.alpha = abs(a)
+                        rule.total += j
+                    elif st == 'raise':
+                        rule.calls += 1
+                        break                                    # the history ends with the error
+                    rule.calls += 1
+                else:
+                    rule(Pq, x, d, dd)
+        except (OverflowError, ZeroDivisionError):
+            ok = False
+        if not ok:
+            continue
+        concs = CONCS[weight_class(P['w'])]
+        cz = dict(conc=rnd.choice(concs), rule=rnd.choice(['kw', 'pos', 'np']), seed=seed,
+                  dd=[rnd.choice(['pos', 'kw', 'np', 'omit', 'int']) for _ in hist], plain=rnd.random() < 0.25,
+                  defmax=ls['maxit'] >= 30 and rnd.random() < 0.5)
+        res, attrs = run_ls_history(I, hist, cz)
+        lines = [dict(op='lsbegin', tid=0, inst=inst_to_json(I))]
+        Dl = 1
+        for v in [ls['a']] + list(ls['seq']):
+            Dl = Dl * Fraction(v).denominator // gcd(Dl, Fraction(v).denominator)
+        for qi, rr in zip(hist, res):
+            lines.append(dict(op='lscall', tid=0, q=qi, raised=rr['raised'] is not None, a=step_q(rr['a'], ls, Dl)))
+        meta = dict(kind='ls', inst=inst_to_json(I), hist=hist, cz=cz)
+        return dict(lines=lines, meta=meta, key=['ls-driver', ls_option_class(ls), cz['conc'], len(hist)], nontrivial=True)
+    return None
+
+
+# ---------------------------------------------------------------- relational lines
+def quantise_seq(A, B, bits):
+    """two sequences of float vectors -> integer vectors relative to the largest magnitude of the pair"""
+    m = max([1e-300] + [float(np.max(np.abs(v))) for v in list(A) + list(B) if len(v)])
+    sc = (2 ** bits) / m
+    qz = lambda S_: [[int(round(float(t) * sc)) for t in v] for v in S_]
+    return qz(A), qz(B)
+
+
+def drv_pair_case(args):
+    """real run against the plain re-implementation of the documented recursion, iterate by iterate (float32 spaces,
+    larger random problems, ADAM with arbitrary decay rates and the default eps)"""
+    lane, seed = args
+    rnd = random.Random(seed)
+    nprng = np.random.RandomState(seed % (2 ** 31))
+    dtype = 'float64'
+    if lane == 'adam':
+        solver = 'adam'
+        n = rnd.choice([2, 3, 5])
+        A = nprng.randint(-2, 3, size=(n, n)).astype(float)
+        M = (A.T.dot(A) + np.eye(n)).tolist()
+        w = [rnd.choice([0.5, 1.0, 2.0])] * n
+        sol = [float(rnd.randint(-3, 3)) for _ in range(n)]
+        P = dict(kind='quad', tag='rand%d' % n, w=w, M=M, c=np.array(M).dot(sol).tolist(), t=[], sol=sol)
+        I = base_inst('adam', P, [float(rnd.randint(-3, 3)) + 0.5 for _ in range(n)], fam='relational', N=5,
+                      lr=rnd.choice([0.001, 0.1, 0.5]), b1=rnd.choice([0.9, 0.5, 0.0]), b2=rnd.choice([0.999, 0.9, 0.5]))
+    else:
+        solver = rnd.choice(['newton', 'bfgs', 'broyden', 'ncg', 'sd'])
+        n = rnd.choice([3, 4, 5, 6, 8]) if lane == 'large' else rnd.choice([2, 3])
+        A = nprng.randint(-2, 3, size=(n, n)).astype(float)
+        M = (A.T.dot(A) + 2 * np.eye(n)).tolist()
+        wc = rnd.choice(['one', 'const', 'array'])
+        w = [1.0] * n if wc == 'one' else [rnd.choice([0.5, 2.0])] * n if wc == 'const' else [rnd.choice([0.5, 1.0, 2.0, 4.0]) for _ in range(n)]
+        if wc == 'array' and len(set(w)) == 1:
+            w[0] *= 2
+        sol = [float(rnd.randint(-3, 3)) for _ in range(n)]
+        P = dict(kind='quad', tag='rand%d' % n, w=w, M=M, c=np.array(M).dot(sol).tolist(), t=[], sol=sol)
+        I = base_inst(solver, P, [float(rnd.randint(-3, 3)) for _ in range(n)], fam='relational', N=rnd.choice([2, 3]))
+        lam = float(np.linalg.eigvalsh(np.array(M) / np.sqrt(np.outer(w, w))).max())
+        small = 2.0 ** -math.ceil(math.log2(lam) + 1)            # a dyadic step below 1 / lambda_max
+        I['ls'] = rnd.choice([LSEX, lsconst(small), lsconst(small / 2)]) if solver != 'newton' else rnd.choice([LSEX, lsconst(1.0), lsconst(0.5)])
+        if solver == 'bfgs':
+            I['store'] = rnd.choice([-1, 1, 2])
+        if solver == 'broyden':
+            I['impl'] = rnd.choice(['first', 'second'])
+        if solver == 'ncg':
+            I['beta'] = rnd.choice(['FR', 'PR', 'HS', 'DY'])
+        if solver == 'newton':
+            I['cgit'] = rnd.choice([0, 1, 2])
+        if lane == 'float32':
+            dtype = 'float32'
+    ref = mirror_run(I, num=float)
+    if not ref['ok'] or len(ref['log']) < I['N'] or (ref['small'] is not None and ref['small'] < 1e-4):
+        return None
+    if solver == 'adam' and ref['small'] < 0.05:
+        return None          # the article's two formulations place eps differently: keep eps / |g| far below a quantum
+    if solver == 'ncg' and ref['tie']:
+        return None
+    cls = weight_class([Fraction(v) for v in P['w']])
+    concs = [c for c in CONCS[cls] if not (solver == 'adam' and c == 'pspace')]
+    cz = dict(conc=rnd.choice(concs), rule='user', seed=seed, cb='func', tol='default', args='kw', dtype=dtype,
+              hinv=rnd.random() < 0.5, cg='n', form='user', rec=True)
+    if solver == 'newton' and I['cgit'] > 0:
+        cz['hinv'] = False
+    obs = run_real(I, cz, [I['N']])
+    so = obs['segs'][0]
+    if so['raised']:
+        return dict(viol=(dict(stage=STAGE, solver=solver, clause='raised', opt=opt_class(I), rule=rule_class(I) + '/relational'),
+                          dict(stage_module=STAGE, kind='pair', inst=I, cz=cz, info=so['raised'])))
+    real = [op['cbs'][0] for op in so['ops'] if op['cbs']]
+    # nonlinear CG reports its iterates from the second one on (KF): compare the rule's points, which are complete
+    calls = [op['call'][1] for op in so['ops'] if op['call'] is not None and op['call'][0] == 'ls']
+    bits = 9 if dtype == 'float32' else 16 if solver == 'adam' else 22
+    if solver == 'adam':
+        A_, B_ = real, [e['xn'] for e in ref['log']]
+    else:
+        A_, B_ = calls[:I['N']], [e['x'] for e in ref['log']]
+    qa, qb = quantise_seq([np.asarray(v, float) for v in A_] + [so['x']] * 0, [np.asarray(v, float) for v in B_], bits)
+    fa, fb = quantise_seq([so['x']], [np.asarray(ref['x'], float)], bits)
+    line = dict(op='pair', tid=0, solver=solver, niter=I['N'], a=qa, b=qb, na=len(real) if solver != 'ncg' else -1,
+                fa=fa[0] if solver != 'ncg' else fb[0], fb=fb[0])
+    meta = dict(kind='pair', lane=lane, inst=json.loads(json.dumps(I, default=str)), cz=cz)
+    return dict(lines=[line], meta=meta, key=['pair', lane, solver, opt_class(I), cz['conc']], nontrivial=True,
+                sig=dict(stage=STAGE, solver=solver, opt=opt_class(I), rule=rule_class(I) + '/relational'))
+
+
+def drv_btdefault(args):
+    k, dtype, plain = args
+    space = odl.rn(2, dtype=dtype)
+    f = SOL.L2NormSquared(space)
+    rule = SOL.BacktrackingLineSearch((lambda x: f(x)) if plain else f, tau=2.0 ** -k)
+    mant = 52 if (plain or dtype == 'float64') else 23
+    return dict(lines=[dict(op='btdefault', tid=0, k=k, mant=mant, mx=int(rule.max_num_iter))],
+                meta=dict(kind='btdefault', k=k, dtype=dtype, plain=plain), key=['btdefault', k, dtype, plain], nontrivial=True)
+
+
+# =====================================================================================================================
+# The stage
+# =====================================================================================================================
+def tlc_env(group, tier, out=os.devnull, quirks=None):
+    q = PINNED_QUIRKS if quirks is None else quirks
+    return {'SMOOTH_GROUP': group, 'SMOOTH_TIER': tier, 'OUT_FILE': out, 'SMOOTH_QUIRKS': '+'.join(q) if q else 'none'}
+
+
+QUIRK_GROUP = {'adam-bias': 'adam', 'ncg-first': 'ncg', 'bt-alpha': 'ls', 'store0': 'bfgs'}
+
+
+def validate_lines(ctx, episodes, on_fail):
+    """episodes: list of dict(lines, meta); writes chunks of <= 6000 lines, runs Trace_Smooth on each"""
+    chunks, cur, nlines = [], [], 0
+    for ei, ep in enumerate(episodes):
+        if nlines + len(ep['lines']) > 6000 and cur:
+            chunks.append(cur)
+            cur, nlines = [], 0
+        cur.append(ei)
+        nlines += len(ep['lines'])
+    if cur:
+        chunks.append(cur)
+    files = []
+    for ci, ch in enumerate(chunks):
+        p = os.path.join(ctx.work, 'smooth_trace_%d.ndjson' % ci)
+        with open(p, 'w') as f:
+            for ei in ch:
+                for ln in episodes[ei]['lines']:
+                    f.write(json.dumps(dict(ln, id=ei, tid=ei + 1)) + '\n')
+        files.append(p)
+
+    def val(p):
+        return p, run_tlc('Trace_Smooth.tla', 'Trace_Smooth.cfg', ctx.work, env={'TRACE_FILE': p}, workers=1, timeout=3000)
+    with ThreadPoolExecutor(max_workers=8) as ex:
+        vres = list(ex.map(val, files))
+    nfail = 0
+    for p, res in vres:
+        ctx.add_tlc('smooth-trace-' + os.path.basename(p), res)
+        per = {}
+        for (line, eid, text) in parse_fails(res.output):
+            per.setdefault(eid, set()).update(re.findall(r'"([\w-]+)"', text))
+        for eid, clauses in sorted(per.items()):
+            nfail += 1
+            on_fail(episodes[eid], sorted(clauses))
+    return nfail
+
+
+def run_stage(ctx):
+    quick = ctx.tier == 'quick'
+    tier = ctx.tier
+    work = ctx.work
+    import multiprocessing as mp
+    ctx.assumptions += [
+        'smooth: "tol" is only claimed to stop the iteration at an exactly stationary point; runs use tol = 2^-20 or the '
+        'default, and layer C / the driver selection guarantee that no tested quantity of a compared run is near it',
+        'smooth: adam is compared with eps below the snapping tolerance (eps -> 0 in layer A), on lattices where '
+        'sqrt(v_hat) is rational (beta2 = 0 or a constant gradient); other decay rates only relationally',
+        'smooth: "max_num_iter" of BacktrackingLineSearch may mean step reductions or trials: where the first accepted '
+        'candidate needs exactly max_num_iter reductions both outcomes are accepted',
+        'smooth: the beta = max(0, beta) variant of nonlinear CG is "a popular choice" in the cited article: instances with '
+        'a negative beta are not compared; nreset: the docstring does not say WHEN the resets happen, any placement of at '
+        'most nreset restarts is accepted',
+        'smooth: an ascent direction makes BacktrackingLineSearch search backwards (negative step), as ODL\'s own unit '
+        'test demands; the default cg_iter of newtons_method is undocumented and not relied on for product spaces; adam '
+        'needs element-wise powers / roots and is not run on heterogeneous product spaces',
+        'smooth: exact ties of the Armijo test are excluded by the machine (guard) and near ties by the driver selection']
+
+    # ---- 1. model: laws of layer A, C [= A, export (one run per family, single worker because of the export) ----
+    jobs = []
+    for g in GROUPS:
+        jobs.append(('smooth-laws+refines+export-' + g, 'MC_SmoothImpl.tla', 'MC_SmoothImpl_both.cfg',
+                     tlc_env(g, tier, os.path.join(work, 'smooth_exp_%s.ndjson' % g)), 1, 'ok', None))
+    # model-level demonstration of each pinned quirk: without the exemption TLC must find a counter-example
+    for qk in PINNED_QUIRKS:
+        jobs.append(('smooth-quirk-visible-' + qk, 'MC_SmoothImpl.tla', 'MC_SmoothImpl_all.cfg',
+                     tlc_env(QUIRK_GROUP[qk], 'quick', quirks=[qk]), 1, 'any',
+                     'invariant:LSRefinesAll' if qk == 'bt-alpha' else 'invariant:RefinesAll'))
+    jobs.append(('smooth-bogus', 'MC_Smooth.tla', 'MC_Smooth_bogus.cfg', tlc_env('sd', 'quick'), 1, 'any', 'invariant:Bogus'))
+    if not quick:
+        # the repaired transcription (every proposal applied) refines layer A on the whole catalogue
+        for g in sorted(set(QUIRK_GROUP[qk] for qk in PINNED_QUIRKS)):
+            jobs.append(('smooth-repaired-refines-' + g, 'MC_SmoothImpl.tla', 'MC_SmoothImpl_all.cfg',
+                         tlc_env(g, tier, quirks=[]), 4, 'ok', None))
+
+    def go(j):
+        return j, run_tlc(j[1], j[2], work, env=j[3], workers=j[4], timeout=3000)
+    with ThreadPoolExecutor(max_workers=8) as ex:
+        results = list(ex.map(go, jobs))
+    for j, res in results:
+        ctx.add_tlc(j[0], res, expect=j[5])
+        if j[6] is not None and res.violated != j[6]:
+            raise MachineryError('model self-test %s: expected %s, TLC reports %s' % (j[0], j[6], res.violated))
+
+    # ---- 2. spec -> code: replay of every exported behaviour ----
+    stasks, ltasks = [], []
+    ninst = {}
+    for g in GROUPS:
+        cases = load_export(os.path.join(work, 'smooth_exp_%s.ndjson' % g))
+        if not cases:
+            raise MachineryError('smooth: empty export for ' + g)
+        ninst[g] = len(cases)
+        if g == 'ls':
+            ltasks += [(c, quick, ctx.seed) for c in cases]
+        else:
+            stasks += [(c, quick, ctx.seed) for c in cases]
+    nproc = 8 if quick else 12
+    rnd = random.Random(ctx.seed * 7919 + 13)
+    nrun, nls, npair = (140, 500, 60) if quick else (1500, 6000, 600)
+    dtasks = [(s, zlib.crc32(('%s/%d' % (s, i)).encode()) + 1000003 * ctx.seed) for s in GROUPS[:-1] for i in range(nrun)]
+    lstasks = [zlib.crc32(('ls/%d' % i).encode()) + 1000003 * ctx.seed for i in range(nls)]
+    ptasks = [(lane, zlib.crc32(('%s/%d' % (lane, i)).encode()) + 1000003 * ctx.seed)
+              for lane in ('adam', 'float32', 'large') for i in range(npair)]
+    btasks = [(k, dt, pl) for k in (1, 2, 3) for dt in ('float64', 'float32') for pl in (False, True)]
+    with mp.get_context('fork').Pool(nproc) as pool:
+        souts = pool.map(replay_solver_case, stasks, chunksize=8)
+        louts = pool.map(replay_ls_case, ltasks, chunksize=64)
+        druns = pool.map(driver_run_case, dtasks, chunksize=8)
+        dls = pool.map(drv_ls_case, lstasks, chunksize=16)
+        dpair = pool.map(drv_pair_case, ptasks, chunksize=8)
+    dbt = [drv_btdefault(a) for a in btasks]
+    drift = {}
+    nreplayed = 0
+    for r in souts + louts:
+        for sig, detail in r['viol']:
+            ctx.violation(sig, detail)
+        for key, nt in r['counts']:
+            ctx.count(key, nt)
+        for d in r['drift']:
+            drift[d] = drift.get(d, 0) + 1
+        if r['sample'] and len(ctx.samples) < 5 and zlib.crc32(json.dumps(r['sample'], sort_keys=True).encode()) % 11 == 0:
+            ctx.sample(r['sample'])
+        if r['counts']:
+            nreplayed += 1
+    for d, c in sorted(drift.items()):
+        ctx.drift_note('%s (%d cases)' % (d, c))
+    ctx.traces += nreplayed
+
+    # ---- 3. code -> spec: driver episodes validated by the trace specification ----
+    episodes = []
+    for r in druns + dls + dpair + dbt:
+        if r is None:
+            continue
+        if 'viol' in r:
+            ctx.violation(*r['viol'])
+            continue
+        episodes.append(r)
+        ctx.count(r['key'], r['nontrivial'])
+    if len(episodes) < (len(dtasks) + len(lstasks)) // 2:
+        raise MachineryError('smooth: too few usable driver episodes (%d)' % len(episodes))
+
+    def on_fail(ep, clauses):
+        meta = ep['meta']
+        harness_cl = [c for c in clauses if c.startswith('harness-') or c == 'unknown-op']
+        if harness_cl:
+            raise MachineryError('smooth: trace line rejected for a harness reason %s: %s' % (harness_cl, json.dumps(meta)[:300]))
+        for cl in clauses:
+            if meta['kind'] == 'run':
+                I = inst_from_json(meta['inst'])
+                sig = sig_of(I, cl, meta['recorded'])
+                if meta['nreset']:
+                    sig['opt'] += '/nreset'
+            elif meta['kind'] == 'ls':
+                I = inst_from_json(meta['inst'])
+                sig = dict(stage=STAGE, solver='linesearch', clause=cl, opt=ls_option_class(I['ls']), rule=I['ls']['k'])
+            elif meta['kind'] == 'pair':
+                sig = dict(ep['sig'], clause=cl)
+            else:
+                sig = dict(stage=STAGE, solver='linesearch', clause=cl, opt='max_num_iter=None', rule='bt')
+            ctx.violation(sig, dict(meta, stage_module=STAGE, tlc_clauses=clauses, lines=ep['lines'][:40]))
+    nfail = validate_lines(ctx, episodes, on_fail)
+    ctx.traces += len(episodes)
+    ctx.extra['smooth'] = {
+        'exported_behaviours': ninst, 'replayed_behaviours': nreplayed,
+        'driver_episodes': {'run': sum(1 for e in episodes if e['meta']['kind'] == 'run'),
+                            'ls': sum(1 for e in episodes if e['meta']['kind'] == 'ls'),
+                            'pair': sum(1 for e in episodes if e['meta']['kind'] == 'pair'),
+                            'btdefault': sum(1 for e in episodes if e['meta']['kind'] == 'btdefault')},
+        'trace_lines_validated_by_tlc': sum(len(e['lines']) for e in episodes),
+        'trace_episodes_rejected_by_tlc': nfail,
+        'layerC_pinned_quirks': list(PINNED_QUIRKS),
+        'tol': '2^-%d' % TOL_BITS, 'max_exact_denominator': MAXDEN}
+    return len(episodes)
+
+
+# ---------------------------------------------------------------- replay of one stored violation
+def replay(body):
+    d = body['detail']
+    sig = body['signature']
+    print('signature:', json.dumps(sig))
+    kind = d.get('kind')
+    if kind == 'solver':
+        case_inst = d['inst']
+        I = inst_from_json(case_inst)
+        obs = run_real(I, d['cz'], d['segs'])
+        print('instance :', REALNAME[I['solver']], I['P']['tag'], opt_class(I), rule_class(I), 'space', d['cz']['conc'],
+              'calls', d['segs'])
+        for si, so in enumerate(obs['segs']):
+            print(' call %d: maxiter=%d rule calls/iterations=%d callbacks=%d raised=%s x=%s' % (
+                si + 1, so['maxiter'], len(so['ops']), sum(len(o['cbs']) for o in so['ops']), so['raised'], so['x']))
+        print(' recorded: %s' % d['info'])
+        # the expectation comes from the specification: re-run TLC on the one instance through the trace specification
+        return _replay_through_trace(I, d['cz'], d['segs'], [None] * len(d['segs']), 0, sig['clause'])
+    if kind == 'run':
+        I = inst_from_json(d['inst'])
+        restart = [None if r is None else [Fraction(v) for v in r] for r in d['restart']]
+        return _replay_through_trace(I, d['cz'], d['segs'], restart, d['nreset'], sig['clause'])
+    if kind == 'ls':
+        I = inst_from_json(d['inst'])
+        res, attrs = run_ls_history(I, d['hist'], d['cz'])
+        print('rule     :', ls_option_class(I['ls']), json.dumps({k: str(v) for k, v in I['ls'].items()}))
+        for qi, r in zip(d['hist'], res):
+            print('  query %d -> %s' % (qi, r['raised'] or r['a']))
+        print(' recorded:', d.get('info', d.get('tlc_clauses')))
+        lines = [dict(op='lsbegin', tid=1, id=0, inst=inst_to_json(I))]
+        Dl = 1
+        for v in [I['ls']['a']] + list(I['ls']['seq']):
+            Dl = Dl * Fraction(v).denominator // gcd(Dl, Fraction(v).denominator)
+        for qi, rr in zip(d['hist'], res):
+            lines.append(dict(op='lscall', tid=1, id=0, q=qi, raised=rr['raised'] is not None, a=step_q(rr['a'], I['ls'], Dl)))
+        return _tlc_lines(lines, sig['clause'])
+    if kind == 'pair':
+        r = drv_pair_case((d['lane'], d['cz']['seed']))
+        if r is None or 'lines' not in r:
+            print('NOT-REPRODUCED (instance not regenerated)')
+            return 0
+        return _tlc_lines([dict(ln, tid=1, id=0) for ln in r['lines']], sig['clause'])
+    print('replay: re-run  VERIF_EXT=smooth ./vcheck EXT')
+    return 0
+
+
+def _tlc_lines(lines, clause):
+    import tempfile
+    import shutil
+    work = tempfile.mkdtemp(prefix='smooth-replay-', dir=os.path.join(VERIF, '.work') if os.path.isdir(os.path.join(VERIF, '.work')) else None)
+    try:
+        p = os.path.join(work, 'trace.ndjson')
+        with open(p, 'w') as f:
+            for ln in lines:
+                f.write(json.dumps(ln) + '\n')
+        res = run_tlc('Trace_Smooth.tla', 'Trace_Smooth.cfg', work, env={'TRACE_FILE': p}, workers=1, timeout=600)
+        fails = parse_fails(res.output)
+        got = set()
+        for (_, _, text) in fails:
+            got.update(re.findall(r'"([\w-]+)"', text))
+        print('TLC (Trace_Smooth) rejects:', sorted(got) or 'nothing', '(status %s)' % res.status)
+        alt = {'step-first-call': 'step', 'step': 'step-first-call'}
+        bad = clause in got or alt.get(clause) in got or (bool(got) and clause not in NONTRACE)
+        print('REPRODUCED' if bad else 'NOT-REPRODUCED')
+        return 1 if bad else 0
+    finally:
+        shutil.rmtree(work, ignore_errors=True)
+
+
+NONTRACE = ()
+
+
+def _replay_through_trace(I, cz, segs, restart, nreset, clause):
+    runsets = [mirror_calls(I, segs, restart)] if not nreset else \
+        [mirror_calls(I, [m + nreset + 1 for m in segs], restart, ncg_schedules(segs, nreset)[0]),
+         mirror_calls(I, segs, restart, ncg_schedules(segs, nreset)[1])]
+    D = lattice_of([r for rs in runsets if rs for r in rs], [I['x0']] + list(restart)) if all(runsets) else None
+    if D is None:
+        # catalogue instances may leave the driver lattice: snap with the largest admissible denominator
+        D = MAXLAT
+    obs = run_real(I, cz, segs, nreset=nreset, restart_x=restart)
+    lines = [dict(ln, id=0, tid=1) for ln in run_lines(I, cz, segs, restart, nreset, obs, D, 1)]
+    return _tlc_lines(lines, clause)
+
+
+if __name__ == '__main__':
+    if len(sys.argv) > 1 and sys.argv[1] == 'gencat':
+        print(gencat())
